@@ -112,7 +112,9 @@ func vpSolveCheck(pb *Problem, refs []vpRef, n int) {
 		zzvp.Assert(zzvp.Not(spec), "parse-time Unsat but the constraints are satisfiable")
 		return
 	}
+	vpAMO(pb)
 	s := New(pb)
+	vpCPSetup(s, n, func(a int) bool { return vpRefsHold(refs, a) })
 	st := s.Solve()
 	zzvp.Assert(st == Sat || st == Unsat, "status is Sat or Unsat")
 	if st == Sat {
